@@ -164,9 +164,13 @@ class L2Runner:
         exe = binary or self.l2
         cmd = (wrapper or []) + [exe] + argv[1:]
         try:
-            with open(os.path.join(md, "doc.bin"), "rb") as stdin:
-                argv_b = [a.encode("utf-8", "surrogateescape") for a in cmd]
-                p = subprocess.run(argv_b, stdin=stdin, stdout=subprocess.PIPE, stderr=subprocess.PIPE, env=env, timeout=timeout,
+            argv_b = [a.encode("utf-8", "surrogateescape") for a in cmd]
+            if meta.get("stdinfile", "0") == "1":
+                with open(os.path.join(md, "doc.bin"), "rb") as stdin:   # stdin is a regular file
+                    p = subprocess.run(argv_b, stdin=stdin, stdout=subprocess.PIPE, stderr=subprocess.PIPE, env=env, timeout=timeout,
+                                       executable=(wrapper[0] if wrapper else exe))
+            else:                                                        # stdin is a pipe
+                p = subprocess.run(argv_b, input=open(os.path.join(md, "doc.bin"), "rb").read(), stdout=subprocess.PIPE, stderr=subprocess.PIPE, env=env, timeout=timeout,
                                    executable=(wrapper[0] if wrapper else exe))
             rc, out, err = p.returncode, p.stdout, p.stderr
         except subprocess.TimeoutExpired:
